@@ -25,8 +25,8 @@ Definition gattr (gruns : list grun) (lo hi : N) (x : xentry) : Prop :=
                 (b = true -> is_call_card (r_card r) = true /\ l = mkl (fi_ns f) (fi_index f) (r_idx r)))
    \/ ((forall g, In g gruns -> ~ in_run (snd g) a) /\ b = false)).
 
-Definition gruns_in (fs : list function_ir) (lo hi : N) (gruns : list grun) : Prop :=
-  Forall (fun g => In (fst g) fs /\ run_ok (fi_cards (fst g)) (fi_ns (fst g)) (fi_index (fst g)) (snd g) /\
+Definition gruns_in (fs : list function_ir) (lo hi : N) (tlo thi : list (N * loc)) (gruns : list grun) : Prop :=
+  Forall (fun g => In (fst g) fs /\ run_ok (fi_cards (fst g)) (fi_ns (fst g)) (fi_index (fst g)) tlo thi (snd g) /\
                    lo <= r_lo (snd g) /\ r_lo (snd g) <= r_hi (snd g) /\ r_hi (snd g) <= hi) gruns.
 
 Definition GP (fs : list function_ir) (s s' : cstate) : Prop :=
@@ -35,7 +35,7 @@ Definition GP (fs : list function_ir) (s s' : cstate) : Prop :=
    exists newx gruns,
      cs_trace s' = map fst newx ++ cs_trace s /\
      addrs (cs_code s') (cs_pc s') = map xaddr newx ++ addrs (cs_code s) (cs_pc s) /\
-     gruns_in fs (cs_pc s) (cs_pc s') gruns /\
+     gruns_in fs (cs_pc s) (cs_pc s') (cs_trace s) (cs_trace s') gruns /\
      Forall (gattr gruns (cs_pc s) (cs_pc s')) newx).
 
 Lemma GP_same fs s s' :
@@ -46,11 +46,16 @@ Proof.
   cbn [map app]. rewrite Hc, Hp, Ht. repeat split; constructor.
 Qed.
 
-Lemma gruns_in_widen fs lo hi lo' hi' gruns :
-  lo' <= lo -> hi <= hi' -> gruns_in fs lo hi gruns -> gruns_in fs lo' hi' gruns.
+Lemma gruns_in_widen fs lo hi lo' hi' tlo thi tlo' thi' gruns :
+  lo' <= lo -> hi <= hi' -> (exists x, tlo = x ++ tlo') -> (exists y, thi' = y ++ thi) ->
+  gruns_in fs lo hi tlo thi gruns -> gruns_in fs lo' hi' tlo' thi' gruns.
 Proof.
-  intros H1 H2 H. unfold gruns_in in *. rewrite Forall_forall in *. intros r Hr.
-  destruct (H r Hr) as (a & b & c & d & e). repeat split; auto; lia.
+  intros H1 H2 [x Hx] [y Hy] H. unfold gruns_in in *. rewrite Forall_forall in *. intros r Hr.
+  destruct (H r Hr) as (a & (ctx & s1 & s2 & q1 & q2 & q3 & q4 & q5 & q6 & q7 & [mid q8] & [later q9]) & c & d & e).
+  split; [exact a|]. split; [|repeat split; lia].
+  exists ctx, s1, s2. repeat (split; [assumption|]). split.
+  - exists (mid ++ x). rewrite q8, Hx, app_assoc. reflexivity.
+  - exists (y ++ later). rewrite Hy, q9, app_assoc. reflexivity.
 Qed.
 
 Lemma gattr_extend_r gruns more lo mid hi x :
@@ -83,7 +88,9 @@ Proof.
   destruct (H2 Hg) as (n2 & r2 & Ht2 & Ha2 & Hr2 & Hx2).
   exists (n2 ++ n1), (r1 ++ r2). rewrite !map_app, <- !app_assoc.
   split; [rewrite Ht2, Ht1; reflexivity|]. split; [rewrite Ha2, Ha1; reflexivity|]. split.
-  - apply Forall_app. split; [eapply gruns_in_widen; [| |exact Hr1] | eapply gruns_in_widen; [| |exact Hr2]]; lia.
+  - apply Forall_app. split.
+    + eapply gruns_in_widen; [| | | |exact Hr1]; [lia | lia | exists []; reflexivity | exists (map fst n2); exact Ht2].
+    + eapply gruns_in_widen; [| | | |exact Hr2]; [lia | lia | exists (map fst n1); exact Ht1 | exists []; reflexivity].
   - apply Forall_app. split.
     + eapply Forall_impl; [|exact Hx2]. intros x Hx. eapply gattr_extend_l; [exact Hle1| |exact Hx].
       intros r Hr. unfold gruns_in in Hr1. rewrite Forall_forall in Hr1. destruct (Hr1 r Hr) as (_ & _ & _ & _ & H). exact H.
@@ -292,7 +299,7 @@ Theorem compile_ir_owner fs d s_end :
    exists newx gruns,
      cs_trace s_end = map fst newx /\
      addrs (cs_code s_end) (cs_pc s_end) = map xaddr newx /\
-     gruns_in fs 0 (cs_pc s_end) gruns /\
+     gruns_in fs 0 (cs_pc s_end) [] (cs_trace s_end) gruns /\
      Forall (gattr gruns 0 (cs_pc s_end)) newx).
 Proof.
   intros H. pose proof (GJ_compile_ir fs (init_state d) I eq_refl) as HG. rewrite H in HG.
